@@ -6,6 +6,15 @@ autoarray/structures/mock/mock_decorators.py).  The method bodies record the gri
 evaluate a harness-chosen function of the coordinates (non-symmetric polynomials, optionally made
 position-dependent: entry k scaled by k+1, or prefix sums), so a permutation, a dropped mask or a grid
 that is not the documented one changes the observation.
+
+Round 4 added three streams (design_notes/C17.md, "Round 4 hardening"):
+  * decades   — every family with the whole world (coordinates, scales, origins, centres, radial minimum)
+                multiplied by 2^k, k = -40..27, compared relative to 2^k: hidden absolute tolerances;
+  * histories — typed step lists on REAL reused grid / mask / profile objects (in-place edits, derived
+                objects, near-duplicate twins, faults, shared objects, decoy reads, mask edits), every call
+                judged as the same call on freshly built objects (`case: "history"`);
+  * large     — `generate_large`: sizes on both sides of every new integer constant of the anchored source
+                in every size dimension, judged by a vectorised oracle alone (`big: true`).
 """
 from __future__ import annotations
 
@@ -81,6 +90,31 @@ def _eval_func(fn, pts, conv=float, pair=False):
     return [[a, b] for a, b in zip(ys, xs)]
 
 
+def _eval_func_np(fn, pts, pair=False):
+    """the same user function, vectorised (float64) on an (N,2) array of coordinates: used by the mock
+    profiles of the LARGE cases (pure-Python evaluation of 10^5 points is too slow) and by their oracle"""
+    pts = np.asarray(pts, dtype="float64").reshape(-1, 2)
+    y, x = pts[:, 0], pts[:, 1]
+    n = len(y)
+
+    def one(c):
+        c = [float(Fraction(v)) for v in c] + [0.0] * (6 - len(c))
+        v = c[0] + c[1] * y + c[2] * x + c[3] * (y * y) + c[4] * (y * x) + c[5] * (x * x)
+        if fn["mode"] == "index":
+            v = v * np.arange(1, n + 1, dtype="float64")
+        elif fn["mode"] == "prefix":
+            v = np.cumsum(v)
+        return v
+
+    if not pair:
+        return one(fn["cy"])
+    return np.stack((one(fn["cy"]), one(fn["cx"])), axis=-1)
+
+
+class UserFault(Exception):
+    """raised by a mock profile function on request (history stream: fault, then reuse)"""
+
+
 def _mocks(aa):
     """mock profile classes; built once autoarray is importable"""
     global _MOCKS
@@ -94,6 +128,8 @@ def _mocks(aa):
             self.is_list = is_list
             self.pair = pair
             self.seen = []
+            self.fault = None  # "raise": the next evaluation raises UserFault (history stream)
+            self.vec = False  # large cases: evaluate with numpy
             if centre is not None:
                 self.centre = centre
             if angle is not None:
@@ -102,6 +138,13 @@ def _mocks(aa):
         def _evaluate(self, grid):
             g = _slim_np(grid)
             self.seen.append((type(grid).__name__, g.copy()))
+            if self.fault == "raise":
+                self.fault = None
+                raise UserFault("user function failed")
+            if self.vec:
+                if self.is_list:
+                    return [_eval_func_np(fn, g, self.pair) for fn in self.funcs]
+                return _eval_func_np(self.funcs[0], g, self.pair)
             pts = [(float(a), float(b)) for a, b in g.reshape(-1, 2)]
 
             def one(fn):
@@ -155,6 +198,9 @@ def _mocks(aa):
         def relocated_from(self, grid, *args, **kwargs):
             g = _np(grid)
             self.seen.append((type(grid).__name__, g.copy()))
+            if self.fault == "raise":
+                self.fault = None
+                raise UserFault("user function failed")
             return g
 
         # nesting of `transform`: each level forwards its keyword arguments to the next
@@ -162,6 +208,9 @@ def _mocks(aa):
         def level3(self, grid, *args, **kwargs):
             self.seen.append((type(grid).__name__, _np(grid).copy()))
             self.flag = kwargs.get("is_transformed")
+            if self.fault == "raise":
+                self.fault = None
+                raise UserFault("user function failed")
             return grid
 
         @dec.transform
@@ -171,6 +220,24 @@ def _mocks(aa):
         @dec.transform
         def level1(self, grid, *args, **kwargs):
             return self.level2(grid, **kwargs)
+
+        # the dispatch decorators on the same profile object (history stream: sibling decorators on one
+        # object, in any order)
+        @dec.to_array
+        def array_from(self, grid, *args, **kwargs):
+            return self._evaluate(grid)
+
+        @dec.to_grid
+        def grid_from(self, grid, *args, **kwargs):
+            return self._evaluate(grid)
+
+        @dec.to_vector_yx
+        def vector_from(self, grid, *args, **kwargs):
+            return self._evaluate(grid)
+
+        @dec.project_grid
+        def projected_from(self, grid, *args, **kwargs):
+            return self._evaluate(grid)
 
     _MOCKS = {"dispatch": MockDispatch, "noattrs": MockNoAttrs, "radial": MockGridRadialMinimum}
     return _MOCKS
@@ -265,7 +332,7 @@ class C17(PropertyCheck):
     nontrivial_rule = (
         "dispatch cases: the grid has >= 2 coordinates and (for uniform grids) the mask has masked and "
         "unmasked pixels; relocation cases: at least one coordinate strictly inside and one outside the "
-        "radial minimum; distinct = distinct case"
+        "radial minimum; histories: at least two observed decorated calls; distinct = distinct case"
     )
     exhaustive_note = {
         "quick": "dispatch: every mask of every shape with H*W <= 6 through one of the three decorators "
@@ -305,6 +372,9 @@ class C17(PropertyCheck):
         "autoarray/mask/derive/mask_1d.py:DeriveMask1D.to_mask_2d",
     ]
     assumptions = [
+        "history stream: the expectation of every step is the single-call model / oracle on the coordinates the "
+        "harness's own shadow copy holds (the same IEEE operation applied with numpy to a float64 copy), never a "
+        "derived view read back from the reused object",
         "the user function returns one value (or (y,x) pair) per coordinate it receives (otherwise the "
         "container constructors raise, which the model reports as constructor_raised)",
         "a profile function handed a native-stored Grid2D / Grid1D evaluates on its slim view (the mocks do); "
@@ -484,6 +554,643 @@ class C17(PropertyCheck):
                            "explicit_false": flag == "explicit_false",
                            "centre": [q(gen.dyadic(rng, -3, 3, 2)), q(gen.dyadic(rng, -3, 3, 2))],
                            "pts": self._irregular_grid(rng)["pts"]}
+        # 7. round 4: every family at world magnitudes 2^-40 .. 2^27 (hidden absolute tolerances)
+        yield from self._decades(tier, rng)
+        # 8. round 4: histories on real reused objects
+        yield from self._history_cases(tier, rng)
+
+    # ------------------------------------------------------------------ round 4: decades stream
+    @staticmethod
+    def _mul(v, f):
+        return q(Fraction(v) * f)
+
+    def _scale_grid(self, g, f, k):
+        """the grid spec with every length multiplied by the power of two f = 2^k (None: not scalable)"""
+        dt = g.get("dtype")
+        if dt in ("int64", "int_list") or (dt == "float32" and k < -30):
+            return None
+        g = dict(g)
+        if g["type"] == "uniform":
+            g["scales"] = [self._mul(v, f) for v in g["scales"]]
+            g["origin"] = [self._mul(v, f) for v in g["origin"]]
+            if "coords" in g:
+                g["coords"] = [[self._mul(a, f), self._mul(b, f)] for a, b in g["coords"]]
+        elif g["type"] in ("irregular", "ndarray"):
+            g["pts"] = [[self._mul(a, f), self._mul(b, f)] for a, b in g["pts"]]
+        else:
+            g["scale"] = self._mul(g["scale"], f)
+            g["origin"] = self._mul(g["origin"], f)
+            if "xs" in g:
+                g["xs"] = [self._mul(x, f) for x in g["xs"]]
+        return g
+
+    @staticmethod
+    def _no_constant(fn, k=-1):
+        """the user function made homogeneous enough for a world of magnitude 2^k: no constant term (it would
+        swamp a tiny world), and for k > 0 no degree-2 terms (they would swamp the linear ones, and their
+        cancellation would leave rounding noise of size 2^2k * 1e-16)"""
+        fn = dict(fn)
+        for key in ("cy", "cx"):
+            if key in fn:
+                c = list(fn[key]) + ["0"] * (6 - len(fn[key]))
+                fn[key] = ["0"] + c[1:3] + (c[3:6] if k < 0 else ["0", "0", "0"])
+        return fn
+
+    def _scale_case(self, case, k):
+        """HIDDEN ABSOLUTE TOLERANCES (round 4): the same case with the whole world — coordinates, pixel
+        scales, origins, centres, radial minimum — multiplied by 2^k.  Every operation of the decorators is
+        homogeneous of degree 1 in these lengths and a power of two scales IEEE results exactly, so the
+        expected observation is the scaled one; an absolute tolerance hidden in the code (np.isclose's 1e-8,
+        an epsilon added to a radius, `< 1e-6` as a stand-in for `== 0`) is not homogeneous and shows as soon
+        as the world's magnitude crosses it.  `mag` = k makes comparison and oracle relative to 2^k (k < 0).
+        Returns None when the case cannot be scaled (integer dtypes)."""
+        f = Fraction(2) ** k
+        c = dict(case)
+        c["mag"] = k
+        c["tag"] = case["tag"] + "_dec"
+        kind = case["case"]
+        if kind == "transform":
+            c["pts"] = [[self._mul(a, f), self._mul(b, f)] for a, b in case["pts"]]
+            c["centre"] = [self._mul(v, f) for v in case["centre"]]
+            return c
+        g = self._scale_grid(case["grid"], f, k)
+        if g is None:
+            return None
+        c["grid"] = g
+        if kind == "dispatch":
+            if k != 0:
+                c["funcs"] = [self._no_constant(fn, k) for fn in case["funcs"]]
+        elif kind == "project":
+            c["centre"] = [self._mul(v, f) for v in case["centre"]]
+            if k != 0:
+                c["func"] = self._no_constant(case["func"], k)
+        elif kind == "relocate":
+            c["centre"] = [self._mul(v, f) for v in case["centre"]]
+            c["rmin"] = self._mul(case["rmin"], f)
+        return c
+
+    MAGS = list(range(-40, 28))  # 2^-40 ~ 9e-13 ... 2^27 ~ 1.3e8
+
+    # ------------------------------------------------------------------ round 4: LARGE cases (size hints)
+    BIG_CAP = 140000  # points / pixels per case that pure Python (no numba) handles in about a second
+    BIG_LIST_CAP = 2100  # list results: containers per call
+
+    @staticmethod
+    def _nonsquare(n):
+        """(h, w) with h*w == n, h != w where possible, h the largest divisor <= sqrt(n) (1 x n for primes)"""
+        best = 1
+        d = 1
+        while d * d <= n:
+            if n % d == 0 and d * d != n:
+                best = d
+            d += 1
+        return best, n // best
+
+    def _big_funcs(self, rng, n, pair, mode=None):
+        fs = _funcs(rng, n, pair)
+        for fn in fs:
+            fn["mode"] = mode or rng.choice(["poly", "index", "prefix"])
+        return fs
+
+    def generate_large(self, hints, rng):
+        """cases whose size — EVERY size dimension the decorators' code sees: coordinates of an irregular grid,
+        unmasked pixels and frame pixels H*W of a (non-square, off-origin, anisotropic) uniform grid, unmasked
+        entries and length of a 1-D grid, points of the radially projected line, coordinates handed to the
+        radial-minimum / transform decorators, elements of a list result — sits at c-1, c, c+1, c+c//3+1 and
+        2c+1 for every new integer constant c in the anchored source.  Coordinates and coefficients are small
+        dyadic rationals (all polynomial values, index products and prefix sums are exact doubles).  These
+        cases carry "big": no model comparison, judged by the vectorised statement of the property
+        (`_judge_big`)."""
+        kinds = ["array", "grid", "vector"]
+        seed = rng.randrange(1 << 30)
+        t = 0
+        for c in sorted(set(int(h) for h in hints)):
+            if c - 1 > self.BIG_CAP or c < 2:
+                continue
+            sizes = [n for n in (c, c + 1, c - 1, c + c // 3 + 1, 2 * c + 1) if 2 <= n <= self.BIG_CAP]
+            for n in sizes:
+                def G(**kw):
+                    nonlocal t
+                    t += 1
+                    return {"seed": seed + t, **kw}
+
+                sc = lambda: [q(v) for v in gen.scales_pair(rng)]
+                og = lambda: [q(v) for v in gen.origin_pair(rng)]
+                # 1. irregular grid of n coordinates, each decorator
+                for kind in kinds:
+                    yield {"tag": "large_disp_irregular", "big": True, "case": "dispatch", "kind": kind,
+                           "grid": {"type": "irregular", "gen": G(n=n)}, "list": t % 4 == 0,
+                           "funcs": self._big_funcs(rng, 2 if t % 4 == 0 else 1, kind != "array")}
+                # 2. uniform grid with exactly n unmasked pixels in a slightly larger non-square frame, each
+                #    decorator; and a frame of exactly n pixels (non-square factorisation), about half unmasked
+                w = int(math.isqrt(n)) + 3
+                h = -(-n // w) + 2
+                for kind in kinds:
+                    yield {"tag": "large_disp_uniform_unmasked", "big": True, "case": "dispatch", "kind": kind,
+                           "grid": {"type": "uniform", "gen": G(h=h, w=w, u=n), "scales": sc(), "origin": og(),
+                                    "store_native": t % 5 == 0},
+                           "list": t % 4 == 1, "funcs": self._big_funcs(rng, 2 if t % 4 == 1 else 1, kind != "array")}
+                fh, fw = self._nonsquare(n)
+                for kind in kinds:
+                    u = n if kind == "grid" else max(1, n // 2 + 1)
+                    yield {"tag": "large_disp_uniform_frame", "big": True, "case": "dispatch", "kind": kind,
+                           "grid": {"type": "uniform", "gen": G(h=fh, w=fw, u=u), "scales": sc(), "origin": og()},
+                           "list": False, "funcs": self._big_funcs(rng, 1, kind != "array")}
+                # 3. 1-D grid: n unmasked entries (length n + a few), and length exactly n
+                for kind in kinds[:2]:
+                    yield {"tag": "large_disp_oned", "big": True, "case": "dispatch", "kind": kind,
+                           "grid": {"type": "oned", "gen": G(n=n + 5, u=n), "scale": q(rng.choice(gen.SCALES)),
+                                    "origin": q(gen.dyadic(rng, -3, 3, 2)), "store_native": t % 3 == 0},
+                           "list": False, "funcs": self._big_funcs(rng, 1, kind != "array")}
+                yield {"tag": "large_disp_oned", "big": True, "case": "dispatch", "kind": "array",
+                       "grid": {"type": "oned", "gen": G(n=n, u=max(1, (2 * n) // 3)), "scale": q(rng.choice(gen.SCALES)),
+                                "origin": q(gen.dyadic(rng, -3, 3, 2))},
+                       "list": False, "funcs": self._big_funcs(rng, 1, False)}
+                # 4. radial minimum on n coordinates
+                for gt in ("irregular", "ndarray"):
+                    yield {"tag": f"large_relocate_{gt}", "big": True, "case": "relocate",
+                           "grid": {"type": gt, "gen": G(n=n, around=True)},
+                           "rmin": q(rng.choice([Fraction(5, 4), Fraction(5, 2), Fraction(1)])),
+                           "centre": [q(gen.dyadic(rng, -2, 2, 2)), q(gen.dyadic(rng, -2, 2, 2))]}
+                yield {"tag": "large_relocate_uniform", "big": True, "case": "relocate",
+                       "grid": {"type": "uniform", "gen": G(h=h, w=w, u=n), "scales": sc(), "origin": og()},
+                       "rmin": "5/2", "centre": "pixel"}
+                # 5. project_grid: projected line of exactly n points (small frame, far centre), frame of n
+                #    pixels, 1-D grid of n entries, irregular grid of n coordinates
+                for var in ("line", "frame", "oned", "irregular"):
+                    pc = {"tag": f"large_project_{var}", "big": True, "case": "project", "attrs": "both",
+                          "angle": q(rng.choice([0, 30, 90, -60, 200, 17])),
+                          "centre": [q(gen.dyadic(rng, -2, 2, 2)), q(gen.dyadic(rng, -2, 2, 2))],
+                          "func": self._big_funcs(rng, 1, False)[0]}
+                    if var == "line":
+                        pc["grid"] = {"type": "uniform", "gen": G(h=3, w=4, u=7), "scales": sc(), "origin": og()}
+                        pc["line_n"] = n  # the centre is placed so that int(dist/scale)+1 == n
+                    elif var == "frame":
+                        pc["grid"] = {"type": "uniform", "gen": G(h=fh, w=fw, u=max(1, n // 3)), "scales": sc(),
+                                      "origin": og()}
+                    elif var == "oned":
+                        pc["grid"] = {"type": "oned", "gen": G(n=n + 3, u=n), "scale": q(rng.choice(gen.SCALES)),
+                                      "origin": q(gen.dyadic(rng, -3, 3, 2))}
+                    else:
+                        pc["grid"] = {"type": "irregular", "gen": G(n=n)}
+                        if t % 2:
+                            pc["func"] = self._big_funcs(rng, 1, True)[0]
+                    yield pc
+                # 6. a list result of n elements on small grids
+                if n <= self.BIG_LIST_CAP:
+                    for kind, gg in (("array", {"type": "irregular", "gen": G(n=3)}),
+                                     ("grid", {"type": "uniform", "gen": G(h=2, w=3, u=4), "scales": sc(), "origin": og()}),
+                                     ("array", {"type": "oned", "gen": G(n=4, u=3), "scale": "1/2", "origin": "1/4"})):
+                        yield {"tag": "large_list", "big": True, "case": "dispatch", "kind": kind, "grid": gg,
+                               "list": True, "funcs": self._big_funcs(rng, 1, kind != "array") * 1,
+                               "list_n": n}
+                # 7. transform on n coordinates
+                yield {"tag": "large_transform", "big": True, "case": "transform", "depth": 1 + t % 3,
+                       "flag": t % 5 == 0, "explicit_false": False,
+                       "centre": [q(gen.dyadic(rng, -3, 3, 2)), q(gen.dyadic(rng, -3, 3, 2))],
+                       "grid": {"type": "irregular", "gen": G(n=n)}}
+
+    # ------------------------------------------------------------------ round 4: history stream
+    # A history is a list of steps on REAL reused objects held in named slots (grids g0,g1,…; profiles p0,p1):
+    #   {"act":"grid","to":g,"grid":spec[,"readonly":true]}      construct a grid (as in the ordinary cases)
+    #   {"act":"profile","to":p,"centre":[y,x],"angle":a|None}   construct a mock profile (all decorators)
+    #   {"act":"call","p":p,"g":g,"what":…, …}                   ONE decorated call, observed
+    #   {"act":"edit","g":g,"k":k,"val":…[,"how":"where"]}       in-place edit through the public __setitem__
+    #   {"act":"derive","from":g,"to":g2,"op":…,"val":…}         arithmetic / copy / slice / view of a grid
+    #   {"act":"mask_edit","from":g,"to":g2,"flips":[[i,b],…]}   edit g's MASK object in place (mask[y,x] = b), then
+    #                                                            build a new grid from that same mask object
+    #   {"act":"setattr","p":p,"centre":…,"angle":…}             edit the profile in place
+    #   {"act":"decoy","g":g[,"p":p]}                             read every other public derived quantity
+    #   {"act":"fault","p":p,"g":g,"what":…}                      the user function raises inside the decorator
+    # Every call step is judged (oracle + model) as the ordinary single-call case on a FRESH object holding
+    # the coordinates the harness's own shadow copy says the reused object holds at that moment.
+    DERIVE_OPS = {
+        "uniform": ["mul", "rmul", "add", "sub", "rsub", "neg", "div", "abs", "pow2", "copy", "deepcopy", "wna",
+                    "gg", "astype", "slim", "native"],
+        "oned": ["mul", "rmul", "add", "sub", "rsub", "neg", "div", "abs", "pow2", "copy", "deepcopy", "wna",
+                 "gg", "astype", "slim", "native"],
+        "irregular": ["mul", "rmul", "add", "sub", "rsub", "neg", "div", "abs", "pow2", "copy", "deepcopy", "wna",
+                      "gg", "astype", "slim", "native", "slice"],
+        "ndarray": ["mul", "add", "sub", "neg", "copy", "slice"],
+    }
+    CALLS = {
+        "uniform": ["array", "grid", "vector", "project", "relocate"],
+        "irregular": ["array", "grid", "vector", "project", "relocate", "transform"],
+        "oned": ["array", "grid", "project"],
+        "ndarray": ["relocate"],
+    }
+
+    def _hist_grid(self, rng, gt):
+        if gt == "uniform":
+            m, mk = gen.random_mask(rng, rng.randint(1, 5), rng.randint(1, 5))
+            if all(all(r) for r in m):
+                m[0][0] = False
+            g = self._uniform_grid(rng, m)
+            r = rng.random()
+            if r < 0.25:
+                g["store_native"] = True
+            elif r < 0.4:
+                g["ctor"] = "manual"
+                g["store_native"] = rng.random() < 0.5
+                g["manual_native_input"] = rng.random() < 0.5
+            return g
+        if gt == "irregular":
+            g = self._irregular_grid(rng, rng.randint(2, 7))
+            if rng.random() < 0.3:
+                g["dtype"] = rng.choice(["ndarray", "tuple", "wrapped"])
+            return g
+        if gt == "ndarray":
+            return {"type": "ndarray", "pts": self._irregular_grid(rng, rng.randint(2, 7))["pts"]}
+        g = self._oned_grid(rng)
+        r = rng.random()
+        if r < 0.3:
+            g["store_native"] = True
+        elif r < 0.45:
+            g["ctor"] = "manual"
+            g["store_native"] = rng.random() < 0.6
+            g["manual_native_input"] = rng.random() < 0.5
+        return g
+
+    @staticmethod
+    def _n_points(g):
+        if g["type"] == "uniform":
+            return g["mask"]["bits"].count("0")
+        if g["type"] == "oned":
+            return g["bits"].count("0")
+        return len(g["pts"])
+
+    def _hist_call(self, rng, gt, what=None, slim_only_ok=True):
+        what = what or rng.choice(self.CALLS[gt])
+        st = {"act": "call", "what": what}
+        if what in ("array", "grid", "vector"):
+            is_list = rng.random() < 0.25
+            st["list"] = is_list
+            st["funcs"] = _funcs(rng, rng.randint(1, 2) if is_list else 1, what != "array")
+        elif what == "project":
+            st["func"] = _funcs(rng, 1, gt == "irregular" and rng.random() < 0.4)[0]
+        elif what == "relocate":
+            st["rmin"] = q(rng.choice([Fraction(5, 2), Fraction(1), Fraction(1, 4), Fraction(5, 4), Fraction(2),
+                                       Fraction(1, 2 ** 20), Fraction(10), Fraction(0)]))
+        else:
+            st["depth"] = rng.randint(1, 3)
+            st["flag"] = rng.random() < 0.3
+            st["explicit_false"] = (not st["flag"]) and rng.random() < 0.3
+        return st
+
+    def _hist_edit(self, rng, gspec, g="g0", allow_where=True):
+        n = self._n_points(gspec)
+        k = rng.randrange(n)
+        if gspec["type"] == "oned":
+            val = q(gen.dyadic(rng, -6, 6, 2))
+        else:
+            val = [q(gen.dyadic(rng, -6, 6, 2)), q(gen.dyadic(rng, -6, 6, 2))]
+        st = {"act": "edit", "g": g, "k": k, "val": val}
+        if allow_where and rng.random() < 0.25:
+            st["how"] = "where"  # boolean-array key: __setitem__ replaces the underlying array
+            st["val"] = q(gen.dyadic(rng, -6, 6, 2))
+        return st
+
+    def _hist_derive(self, rng, gt, frm, to, n):
+        op = rng.choice(self.DERIVE_OPS[gt] + (["via_to_grid"] * 2 if gt in ("uniform", "irregular") else []))
+        st = {"act": "derive", "from": frm, "to": to, "op": op}
+        if op == "via_to_grid":  # the Grid2D / Grid2DIrregular RETURNED by a to_grid-decorated call, used as a grid
+            st["funcs"] = _funcs(rng, 1, True)
+            st["p"] = "p0"
+        if op in ("mul", "rmul", "div"):
+            st["val"] = q(rng.choice([Fraction(5, 2), Fraction(2), Fraction(-3, 2), Fraction(1, 2), Fraction(3)]))
+        elif op in ("add", "sub", "rsub", "wna"):
+            st["val"] = q(rng.choice([Fraction(10), Fraction(-5, 4), Fraction(1, 2), Fraction(3)]))
+        elif op == "slice":
+            a = rng.randrange(n)
+            st["val"] = [a, rng.randint(a + 1, n)]
+        return st
+
+    def _hist_profile(self, rng, to="p0", gspec=None):
+        centre = [q(gen.dyadic(rng, -2, 2, 2)), q(gen.dyadic(rng, -2, 2, 2))]
+        if gspec is not None and gspec["type"] == "uniform" and rng.random() < 0.6:
+            cs = _centres_2d(gspec["mask"], [Fraction(v) for v in gspec["scales"]],
+                             [Fraction(v) for v in gspec["origin"]])
+            c0 = rng.choice(cs)
+            centre = [q(c0[0]), q(c0[1])]
+        elif gspec is not None and gspec["type"] in ("irregular", "ndarray") and rng.random() < 0.4:
+            centre = list(rng.choice(gspec["pts"]))
+        angle = None if rng.random() < 0.2 else q(rng.choice([0, 30, 45, 90, -60, 180, 200, 17, 123, 270, 359]))
+        return {"act": "profile", "to": to, "centre": centre, "angle": angle}
+
+    @staticmethod
+    def _perturb(v, rng):
+        """a near-duplicate of the number v: relative 2^-18 .. 2^-17 (inside np.allclose's default rtol 1e-5,
+        far outside the property's 1e-9), or absolute 2^-33 ~ 1.2e-10 when v = 0"""
+        v = Fraction(v)
+        e = Fraction(1, 2 ** rng.choice([17, 18]))
+        return q(v * (1 + e * rng.choice([1, -1])) if v != 0 else Fraction(rng.choice([1, -1]), 2 ** 33))
+
+    def _perturb_grid(self, g, rng):
+        g = dict(g)
+        if g["type"] == "uniform":
+            which = rng.choice(["scales", "origin", "both"])
+            if which in ("scales", "both"):
+                g["scales"] = [self._perturb(v, rng) for v in g["scales"]]
+            if which in ("origin", "both"):
+                g["origin"] = [self._perturb(v, rng) for v in g["origin"]]
+        elif g["type"] in ("irregular", "ndarray"):
+            pts = [list(p) for p in g["pts"]]
+            for i in (range(len(pts)) if rng.random() < 0.5 else [rng.randrange(len(pts))]):
+                pts[i] = [self._perturb(pts[i][0], rng), self._perturb(pts[i][1], rng)]
+            g["pts"] = pts
+        else:
+            which = rng.choice(["scale", "origin", "both"])
+            if which in ("scale", "both"):
+                g["scale"] = self._perturb(g["scale"], rng)
+            if which in ("origin", "both"):
+                g["origin"] = self._perturb(g["origin"], rng)
+        return g
+
+    def _history(self, rng, fam, gt):
+        g0 = self._hist_grid(rng, gt)
+        n0 = self._n_points(g0)
+        steps = [{"act": "grid", "to": "g0", "grid": g0}, self._hist_profile(rng, "p0", g0)]
+        if gt == "ndarray" and rng.random() < 0.3 and fam not in ("edit", "mixed"):
+            steps[0]["readonly"] = True  # a caller-owned read-only coordinate array
+        native0 = bool(g0.get("store_native"))
+
+        def call(g="g0", p="p0", what=None, native=False):
+            st = self._hist_call(rng, gt, what)
+            if st["what"] == "relocate" and native:
+                st = self._hist_call(rng, gt, rng.choice([w for w in self.CALLS[gt] if w != "relocate"]))
+            st["g"], st["p"] = g, p
+            return st
+
+        if fam == "edit":
+            a = call(native=native0)
+            steps.append(a)
+            if rng.random() < 0.5:
+                steps.append({"act": "decoy", "g": "g0", "p": "p0"})
+            where_ok = not (native0 or gt == "ndarray")
+            steps.append(self._hist_edit(rng, g0, allow_where=where_ok))
+            steps.append({**a})  # the same call again on the edited object
+            steps.append(call(native=native0))
+            if rng.random() < 0.5:
+                steps.append(self._hist_edit(rng, g0, allow_where=where_ok))
+                steps.append({**a})
+        elif fam in ("derive", "derive_first"):
+            a = call(native=native0)
+            if fam == "derive":
+                steps.append(a)
+                if rng.random() < 0.3:
+                    steps.append(call(native=native0))
+            d = self._hist_derive(rng, gt, "g0", "g1", n0)
+            steps.append(d)
+            nat1 = {"slim": False, "via_to_grid": False, "native": gt in ("uniform", "oned")}.get(d["op"], native0)
+            b = {**a, "g": "g1"}
+            if b["what"] == "relocate" and nat1:
+                b = call("g1", native=True)
+            steps.append(b)
+            steps.append({**a})  # the parent is still what it was
+            if rng.random() < 0.5:
+                n1 = (d["val"][1] - d["val"][0]) if d["op"] == "slice" else n0
+                d2 = self._hist_derive(rng, gt, "g1", "g2", n1)
+                steps.append(d2)
+                nat2 = {"slim": False, "via_to_grid": False, "native": gt in ("uniform", "oned")}.get(d2["op"], nat1)
+                steps.append(call("g2", native=nat2))
+                steps.append(call("g1", native=nat1))
+        elif fam == "twin":
+            a = call(native=native0)
+            steps.append(a)
+            r = rng.random()
+            if r < 0.5:
+                # a freshly built near-duplicate grid through the same profile object, then the first again
+                steps.append({"act": "grid", "to": "g1", "grid": self._perturb_grid(g0, rng)})
+                steps.append({**a, "g": "g1"})
+                steps.append({**a})
+            elif r < 0.6 and a["what"] in ("array", "grid", "vector", "project"):
+                # the user function changed by a hair (results within np.allclose of the previous ones)
+                def pf(fn):
+                    return {**fn, **{key: [self._perturb(v, rng) for v in fn[key]] for key in ("cy", "cx") if key in fn}}
+                if "funcs" in a:
+                    steps.append({**a, "funcs": [pf(fn) for fn in a["funcs"]]})
+                else:
+                    steps.append({**a, "func": pf(a["func"])})
+                steps.append({**a})
+            elif r < 0.8 or a["what"] != "relocate":
+                # the profile edited in place by a hair
+                pr = steps[1]
+                new = {"act": "setattr", "p": "p0", "centre": [self._perturb(v, rng) for v in pr["centre"]]}
+                if pr["angle"] is not None:
+                    new["angle"] = self._perturb(pr["angle"], rng)
+                steps.append(new)
+                steps.append({**a})
+                b = call(what="project" if gt != "ndarray" else None, native=native0)
+                steps.append(b)
+            else:
+                steps.append({**a, "rmin": self._perturb(a["rmin"], rng)})
+                steps.append({**a})
+        elif fam == "fault":
+            a = call(native=native0)
+            if a["what"] in ("array", "grid", "vector") and gt == "uniform" and not a["list"] and rng.random() < 0.5:
+                steps.append({**a, "drop_last": True})  # wrong-length result: the constructor refuses
+            else:
+                steps.append({**a, "act": "fault"})
+            steps.append({**a})
+            steps.append(call(native=native0))
+        elif fam == "shared":
+            r = rng.random()
+            if r < 0.5:
+                # one profile object, two worlds, both orders
+                g1 = self._hist_grid(rng, gt)
+                steps.append({"act": "grid", "to": "g1", "grid": g1})
+                a = call("g0", native=native0 or bool(g1.get("store_native")))
+                order = ["g0", "g1", "g0"] if rng.random() < 0.5 else ["g1", "g0", "g1"]
+                for g in order:
+                    steps.append({**a, "g": g})
+            else:
+                # one grid object, two profiles (different centre / angle), interleaved
+                steps.append(self._hist_profile(rng, "p1", g0))
+                a = call(native=native0)
+                for p_ in (["p0", "p1", "p0"] if rng.random() < 0.5 else ["p1", "p0", "p1"]):
+                    steps.append({**a, "p": p_})
+                steps.append(call("g0", "p1", native=native0))
+        elif fam == "maskedit":
+            # only for grids that own a mask: the mask is edited in place and a new grid is built from it
+            a = call(native=native0)
+            steps.append(a)
+            if rng.random() < 0.5:
+                steps.append({"act": "decoy", "g": "g0", "p": "p0"})
+            bits = g0["mask"]["bits"] if gt == "uniform" else g0["bits"]
+            flips = []
+            for i in rng.sample(range(len(bits)), min(len(bits), rng.randint(1, 3))):
+                flips.append([i, 0 if bits[i] == "1" else 1])
+            nb = list(bits)
+            for i, b in flips:
+                nb[i] = str(b)
+            if "0" not in nb:
+                flips = [f for f in flips if f[1] == 0] or [[0, 0]]
+            steps.append({"act": "mask_edit", "from": "g0", "to": "g1", "flips": flips})
+            b = {**a, "g": "g1"}
+            steps.append(b)
+            steps.append(call("g1"))
+        elif fam == "decoy":
+            steps.append({"act": "decoy", "g": "g0", "p": "p0"})
+            steps.append(call(native=native0))
+            steps.append({"act": "decoy", "g": "g0", "p": "p0"})
+            steps.append(call(native=native0))
+        else:  # mixed: every sibling decorator on the same objects, in a random order, with edits in between
+            whats = list(self.CALLS[gt])
+            rng.shuffle(whats)
+            for w in whats:
+                if w == "relocate" and native0:
+                    continue
+                steps.append(call(what=w))
+                r = rng.random()
+                if r < 0.3:
+                    steps.append(self._hist_edit(rng, g0, allow_where=not (native0 or gt == "ndarray")))
+                elif r < 0.45:
+                    steps.append({"act": "decoy", "g": "g0", "p": "p0"})
+            rng.shuffle(whats)
+            for w in whats[:2]:
+                if not (w == "relocate" and native0):
+                    steps.append(call(what=w))
+        return {"tag": f"hist_{fam}_{gt}", "case": "history", "steps": steps}
+
+    def _scale_history(self, case, k):
+        f = Fraction(2) ** k
+        steps = []
+        for st in case["steps"]:
+            st = dict(st)
+            act = st["act"]
+            if act == "grid":
+                g = self._scale_grid(st["grid"], f, k)
+                if g is None:
+                    return None
+                st["grid"] = g
+            elif act in ("profile", "setattr"):
+                if st.get("centre") is not None:
+                    st["centre"] = [self._mul(v, f) for v in st["centre"]]
+            elif act in ("call", "fault"):
+                if "rmin" in st:
+                    st["rmin"] = self._mul(st["rmin"], f)
+                if k != 0 and "funcs" in st:
+                    st["funcs"] = [self._no_constant(fn, k) for fn in st["funcs"]]
+                if k != 0 and "func" in st:
+                    st["func"] = self._no_constant(st["func"], k)
+            elif act == "edit":
+                st["val"] = [self._mul(v, f) for v in st["val"]] if isinstance(st["val"], list) else self._mul(st["val"], f)
+            elif act == "derive":
+                if st["op"] == "pow2":
+                    st["op"] = "abs"  # not homogeneous of degree 1
+                elif st["op"] in ("add", "sub", "rsub", "wna"):
+                    st["val"] = self._mul(st["val"], f)
+            steps.append(st)
+        return {**case, "steps": steps, "mag": k, "tag": case["tag"] + "_dec"}
+
+    @staticmethod
+    def _hist_ok(steps):
+        """well-formed: every slot is defined before it is used and at least one call is observed (the
+        generator only makes such histories; shrinking must stay inside them)"""
+        have = set()
+        calls = 0
+        for st in steps:
+            act = st["act"]
+            if act in ("grid", "profile"):
+                have.add(st["to"])
+            elif act in ("derive", "mask_edit"):
+                if st["from"] not in have or st.get("p", st["from"]) not in have:
+                    return False
+                have.add(st["to"])
+            else:
+                for key in ("g", "p"):
+                    if key in st and st[key] not in have:
+                        return False
+                if act in ("call", "fault") and ("g" not in st or "p" not in st):
+                    return False
+                calls += act == "call"
+        return calls >= 1
+
+    def _history_cases(self, tier, rng):
+        fams = ["edit", "derive", "derive_first", "twin", "fault", "shared", "decoy", "mixed", "maskedit"]
+        gts = ["oned", "uniform", "irregular", "oned", "irregular", "uniform", "ndarray"]
+        reps = 20 if tier == "quick" else 100
+        i = 0
+        for _ in range(reps):
+            for fam in fams:
+                for gt in gts:
+                    if fam == "maskedit" and gt not in ("uniform", "oned"):
+                        continue
+                    c = self._history(rng, fam, gt)
+                    i += 1
+                    if i % 5 == 0:  # a fifth of the histories at another world magnitude
+                        c = self._scale_history(c, rng.choice(self.MAGS))
+                    if c is not None and self._hist_ok(c["steps"]):
+                        yield c
+
+    def _decades(self, tier, rng):
+        """ordinary cases of every family, each at a world magnitude 2^k; k sweeps -40..27 completely (every
+        k occurs for the relocation family in every run), plus relocation cases whose coordinates spread over
+        many decades around the minimum"""
+        reps = 3 if tier == "quick" else 8
+        kinds = ["array", "grid", "vector"]
+        for rep in range(reps):
+            ks = list(self.MAGS)
+            rng.shuffle(ks)
+            for i, k in enumerate(ks):
+                # relocation: two per magnitude, one of them with extra coordinates on rays at r_min * 2^j
+                for spread in (False, True):
+                    base = self._relocate_case(rng)
+                    if spread and base["grid"]["type"] != "uniform" and "dtype" not in base["grid"]:
+                        cy, cx = (Fraction(v) for v in base["centre"])
+                        rmin = Fraction(base["rmin"]) or Fraction(1)
+                        pts = list(base["grid"]["pts"])
+                        for _ in range(rng.randint(1, 3)):
+                            a, b, c3 = rng.choice([(3, 4, 5), (5, 12, 13), (8, 15, 17), (0, 1, 1), (1, 0, 1)])
+                            r = rmin * Fraction(2) ** rng.randint(-30, 30) * rng.choice([1, Fraction(3, 2), Fraction(5, 4)])
+                            sa, sb = rng.choice([1, -1]), rng.choice([1, -1])
+                            p = (cy + sa * r * Fraction(a, c3), cx + sb * r * Fraction(b, c3))
+                            pts.append([q(Fraction(float(p[0]))), q(Fraction(float(p[1])))])
+                        base = {**base, "grid": {**base["grid"], "pts": pts}}
+                        if rng.random() < 0.5:
+                            # the profile centre at the origin: the tiny radii are then exact doubles
+                            base = {**base, "centre": ["0", "0"],
+                                    "grid": {**base["grid"], "pts": [
+                                        [q(Fraction(float(Fraction(a) - cy))), q(Fraction(float(Fraction(b) - cx)))]
+                                        for a, b in pts]}}
+                    c = self._scale_case(base, k)
+                    if c is not None:
+                        yield c
+                # dispatch / project / transform: one each per magnitude, types rotating
+                gt = ("uniform", "irregular", "oned")[(i + rep) % 3]
+                if gt == "uniform":
+                    m, mk = gen.random_mask(rng, rng.randint(1, 5), rng.randint(1, 5))
+                    grid = self._uniform_grid(rng, m)
+                elif gt == "irregular":
+                    grid = self._irregular_grid(rng)
+                else:
+                    grid = self._oned_grid(rng)
+                kind = kinds[(i // 3) % 3] if gt != "oned" else kinds[(i // 3) % 2]
+                c = self._scale_case(self._dispatch(rng, kind, grid, rng.random() < 0.25, f"disp_{gt}"), k)
+                if c is not None:
+                    yield c
+                gt = ("oned", "uniform", "irregular")[(i + rep) % 3]
+                if gt == "uniform":
+                    m, mk = gen.random_mask(rng, rng.randint(1, 5), rng.randint(1, 5))
+                    grid = self._uniform_grid(rng, m)
+                elif gt == "irregular":
+                    grid = self._irregular_grid(rng)
+                else:
+                    grid = self._oned_grid(rng)
+                pc = {"tag": f"project_{gt}", "case": "project", "grid": grid,
+                      "attrs": rng.choice(["both", "both", "centre_only", "none"]),
+                      "centre": [q(gen.dyadic(rng, -2, 2, 2)), q(gen.dyadic(rng, -2, 2, 2))],
+                      "angle": q(rng.choice([0, 30, 45, 90, -60, 180, 200, 17, 123, 270, 359])),
+                      "func": _funcs(rng, 1, gt == "irregular" and rng.random() < 0.4)[0]}
+                c = self._scale_case(pc, k)
+                if c is not None:
+                    yield c
+                if i % 4 == 0:
+                    tc = {"tag": "transform", "case": "transform", "depth": rng.randint(1, 3),
+                          "flag": rng.random() < 0.3, "explicit_false": False,
+                          "centre": [q(gen.dyadic(rng, -3, 3, 2)), q(gen.dyadic(rng, -3, 3, 2))],
+                          "pts": self._irregular_grid(rng)["pts"]}
+                    yield self._scale_case(tc, k)
 
     def _relocate_case(self, rng):
         rmin = rng.choice([Fraction(5, 2), Fraction(1), Fraction(1, 4), Fraction(5, 4), Fraction(1, 2 ** 20),
@@ -628,18 +1335,47 @@ class C17(PropertyCheck):
             return [(Fraction(a), Fraction(b)) for a, b in g["pts"]]
         return _centres_1d(g["bits"], Fraction(g["scale"]), Fraction(g["origin"]))
 
-    def run_impl(self, case):
-        aa = load_autoarray()
+    def _profile_for(self, aa, case):
+        """the mock profile object of an ordinary (single-call) case"""
         mocks = _mocks(aa)
         kind = case["case"]
         if kind == "dispatch":
-            pair = case["kind"] != "array"
-            funcs = case["funcs"]
-            obj = mocks["dispatch"](funcs=funcs, is_list=case["list"], pair=pair, centre=(0.0, 0.0))
+            return mocks["dispatch"](funcs=case["funcs"], is_list=case["list"], pair=case["kind"] != "array",
+                                     centre=(0.0, 0.0))
+        if kind == "project":
+            attrs = case["attrs"]
+            centre = tuple(float(Fraction(v)) for v in case["centre"])
+            angle = float(Fraction(case["angle"]))
+            pair = "cx" in case["func"]
+            if attrs == "missing":
+                return mocks["noattrs"](funcs=[case["func"]], pair=pair)
+            if attrs == "none":
+                obj = mocks["dispatch"](funcs=[case["func"]], pair=pair)
+                obj.centre = None
+                obj.angle = None
+                return obj
+            if attrs == "centre_only":
+                obj = mocks["dispatch"](funcs=[case["func"]], pair=pair, centre=centre)
+                obj.angle = None
+                return obj
+            return mocks["dispatch"](funcs=[case["func"]], pair=pair, centre=centre, angle=angle)
+        return mocks["radial"](centre=tuple(float(Fraction(v)) for v in case["centre"]))
+
+    def _observe(self, aa, case, obj, grid, in_pts=None, in_mask=None):
+        """ONE decorated call of `case` on the given (possibly reused) profile object and grid object.
+        `in_pts` / `in_mask`: the coordinates / mask attributes the grid is known to hold (history stream: the
+        harness's own shadow copy, so that a stale derived view of a reused object cannot leak into the
+        expectation); default: read from the grid object."""
+        kind = case["case"]
+        obj.seen = []
+        if hasattr(obj, "n_transforms"):
+            obj.n_transforms = 0
+        ipts = in_pts if in_pts is not None else self._in_pts(grid)
+        if kind == "dispatch":
+            obj.funcs, obj.is_list, obj.pair = case["funcs"], case["list"], case["kind"] != "array"
             if case.get("drop_last"):
-                base_eval = obj._evaluate
-                obj._evaluate = lambda grid: base_eval(grid)[:-1]
-            grid = self._make_grid(aa, case["grid"])
+                base_eval = type(obj)._evaluate
+                obj._evaluate = lambda g: base_eval(obj, g)[:-1]
             meth = {"array": obj.array_from, "grid": obj.grid_from, "vector": obj.vector_from}[case["kind"]]
             try:
                 res = meth(grid)
@@ -650,42 +1386,28 @@ class C17(PropertyCheck):
                 if case.get("drop_last"):
                     return {"err": "constructor_raised"}
                 raise
+            finally:
+                obj.__dict__.pop("_evaluate", None)
             if len(obj.seen) != 1:
                 return {"err": f"function called {len(obj.seen)} times"}
             tname, seen = obj.seen[0]
             out = [_container_obs(c) for c in res] if isinstance(res, list) else _container_obs(res)
             return {"seen": [qlist(p) for p in seen.reshape(-1, 2)], "out": out, "_seen_type": tname,
-                    "_in_pts": self._in_pts(grid), "_in_mask": self._in_mask(grid),
+                    "_in_pts": ipts, "_in_mask": in_mask if in_mask is not None else self._in_mask(grid),
                     "_same_mask": bool(getattr(res, "mask", None) is getattr(grid, "mask", 0))}
         if kind == "project":
-            attrs = case["attrs"]
-            centre = tuple(float(Fraction(v)) for v in case["centre"])
-            angle = float(Fraction(case["angle"]))
             pair = "cx" in case["func"]
-            if attrs == "missing":
-                obj = mocks["noattrs"](funcs=[case["func"]], pair=pair)
-            elif attrs == "none":
-                obj = mocks["dispatch"](funcs=[case["func"]], pair=pair)
-                obj.centre = None
-                obj.angle = None
-            elif attrs == "centre_only":
-                obj = mocks["dispatch"](funcs=[case["func"]], pair=pair, centre=centre)
-                obj.angle = None
-            else:
-                obj = mocks["dispatch"](funcs=[case["func"]], pair=pair, centre=centre, angle=angle)
-            grid = self._make_grid(aa, case["grid"])
+            obj.funcs, obj.is_list, obj.pair = [case["func"]], False, pair
             res = obj.projected_from(grid)
             tname, seen = obj.seen[0]
             v = _np(res)
             return {"seen": [qlist(p) for p in seen.reshape(-1, 2)],
                     "values": [qlist(p) for p in v.reshape(-1, 2)] if pair else qlist(v.ravel()),
-                    "_cls": type(res).__name__, "_seen_type": tname, "_in_pts": self._in_pts(grid),
+                    "_cls": type(res).__name__, "_seen_type": tname, "_in_pts": ipts,
                     "_scales": qlist(res.pixel_scales) if hasattr(res, "pixel_scales") else None}
         if kind == "relocate":
             from autoconf import conf
 
-            obj = mocks["radial"](centre=tuple(float(Fraction(v)) for v in case["centre"]))
-            grid = self._make_grid(aa, case["grid"])
             tbl = conf.instance["grids"]["radial_minimum"]["radial_minimum"]
             old = tbl["MockGridRadialMinimum"]
             tbl["MockGridRadialMinimum"] = float(Fraction(case["rmin"]))
@@ -695,11 +1417,10 @@ class C17(PropertyCheck):
                 tbl["MockGridRadialMinimum"] = old
             tname, seen = obj.seen[0]
             return {"seen": [qlist(p) for p in seen.reshape(-1, 2)], "_seen_type": tname,
-                    "_in_pts": self._in_pts(grid),
+                    "_in_pts": ipts,
                     "_n_transforms": obj.n_transforms, "_in_type": type(grid).__name__}
         if kind == "transform":
-            obj = mocks["radial"](centre=tuple(float(Fraction(v)) for v in case["centre"]))
-            grid = self._make_grid(aa, {"type": "irregular", "pts": case["pts"]})
+            obj.flag = None
             meth = {1: obj.level3, 2: obj.level2, 3: obj.level1}[case["depth"]]
             if case["flag"]:
                 meth(grid, is_transformed=True)
@@ -712,6 +1433,516 @@ class C17(PropertyCheck):
                     "_n_transforms": getattr(obj, "n_transforms", 0)}
         raise ValueError(kind)
 
+    # ---- large cases: construction, observation and the vectorised statement of the property
+    def _big_grid(self, aa, g, centre=None):
+        """(grid object, info) of a generated large grid spec {"type", "gen": {seed, n | h,w,u}, …}"""
+        gg = g["gen"]
+        rs = np.random.RandomState(gg["seed"] % (2 ** 32))
+        t = g["type"]
+        if t in ("irregular", "ndarray"):
+            n = gg["n"]
+            if gg.get("around"):
+                c = np.array([float(Fraction(v)) for v in centre])
+                pts = c + rs.randint(-12, 13, size=(n, 2)) / 4.0
+            else:
+                pts = rs.randint(-24, 25, size=(n, 2)) / 4.0
+            grid = pts.copy() if t == "ndarray" else aa.Grid2DIrregular(values=pts.copy())
+            return grid, {"pts": pts}
+        if t == "uniform":
+            h, w, u = gg["h"], gg["w"], min(gg["u"], gg["h"] * gg["w"])
+            m = np.ones(h * w, dtype=bool)
+            m[rs.permutation(h * w)[:u]] = False
+            m = m.reshape(h, w)
+            mask = aa.Mask2D(mask=m, pixel_scales=tuple(float(Fraction(v)) for v in g["scales"]),
+                             origin=tuple(float(Fraction(v)) for v in g["origin"]))
+            grid = aa.Grid2D.from_mask(mask=mask)
+            if g.get("store_native"):
+                grid = grid.native
+            return grid, {"mask": m}
+        n, u = gg["n"], min(gg["u"], gg["n"])
+        m = np.ones(n, dtype=bool)
+        m[rs.permutation(n)[:u]] = False
+        m1 = aa.Mask1D(mask=m, pixel_scales=float(Fraction(g["scale"])), origin=(float(Fraction(g["origin"])),))
+        grid = aa.Grid1D.from_mask(mask=m1)
+        if g.get("store_native"):
+            grid = grid.native
+        return grid, {"mask": m}
+
+    @staticmethod
+    def _np_close(got, exp, tol=1e-9):
+        got, exp = np.asarray(got, dtype="float64"), np.asarray(exp, dtype="float64")
+        if got.shape != exp.shape:
+            return False, f"shape {got.shape} != {exp.shape}"
+        bad = ~(np.abs(got - exp) <= tol * np.maximum(1.0, np.maximum(np.abs(got), np.abs(exp))))
+        if bad.any():
+            k = int(np.argwhere(bad)[0][0])
+            return False, f"first difference at entry {k} of {len(got)}: got {got[k]!r}, expected {exp[k]!r}"
+        return True, ""
+
+    def _run_big(self, aa, case):
+        """a LARGE case: observe, then judge at once with the vectorised statement of the property (the arrays
+        are not kept: a run holds hundreds of such cases).  The observation is {"ok", "detail", sizes}."""
+        mocks = _mocks(aa)
+        kind = case["case"]
+        centre = case.get("centre")
+        funcs = case.get("funcs")
+        if case.get("list_n"):
+            b = funcs[0]
+            funcs = [{**b, "cy": [q(Fraction(b["cy"][0]) + i)] + list(b["cy"][1:])} for i in range(case["list_n"])]
+        grid, info = self._big_grid(aa, case["grid"], centre if kind == "relocate" and centre != "pixel" else None)
+        in_pts = _slim_np(grid).copy()
+        g = case["grid"]
+        if kind == "relocate" and centre == "pixel":
+            c0 = in_pts[len(in_pts) // 2]
+            centre = [q(float(c0[0])), q(float(c0[1]))]
+        if kind == "project" and case.get("line_n"):
+            sy, sx = (Fraction(v) for v in g["scales"])
+            oy, ox = (Fraction(v) for v in g["origin"])
+            w = g["gen"]["w"]
+            centre = [q(oy), q(ox + w * sx / 2 - (case["line_n"] - 1) * sx - sx / 2)]
+        if kind == "dispatch":
+            obj = mocks["dispatch"](funcs=funcs, is_list=case["list"], pair=case["kind"] != "array", centre=(0.0, 0.0))
+        elif kind == "project":
+            obj = mocks["dispatch"](funcs=[case["func"]], pair="cx" in case["func"],
+                                    centre=tuple(float(Fraction(v)) for v in centre),
+                                    angle=float(Fraction(case["angle"])))
+        else:
+            obj = mocks["radial"](centre=tuple(float(Fraction(v)) for v in centre))
+        obj.vec = True
+        sizes = {"points": int(len(in_pts)), "frame": list(np.shape(info["mask"])) if "mask" in info else None}
+        try:
+            ok, detail = self._judge_big(aa, {**case, "funcs": funcs, "centre": centre}, obj, grid, info, in_pts)
+        except (aa.exc.ArrayException, aa.exc.GridException, aa.exc.VectorYXException, ValueError, IndexError,
+                TypeError, MemoryError, FloatingPointError) as e:
+            ok, detail = False, f"implementation raised {type(e).__name__}: {str(e)[:200]}"
+        return {"ok": bool(ok), "detail": detail, "sizes": sizes}
+
+    def _oracle_big(self, case, obs):
+        if not isinstance(obs, dict) or "ok" not in obs:
+            return False, f"implementation raised {obs}"
+        return obs["ok"], ("" if obs["ok"] else f"[large case, sizes {obs.get('sizes')}] {obs['detail']}")
+
+    def _judge_big(self, aa, case, obj, grid, info, in_pts):
+        """the property on one large case, stated with numpy on the implementation's outputs"""
+        kind = case["case"]
+        g = case["grid"]
+        gt = g["type"]
+        close = self._np_close
+        if gt in ("irregular", "ndarray") and not np.array_equal(in_pts, info["pts"]):
+            return False, "the irregular grid does not hold the coordinates it was built from"
+        if kind == "dispatch":
+            pair = case["kind"] != "array"
+            meth = {"array": obj.array_from, "grid": obj.grid_from, "vector": obj.vector_from}[case["kind"]]
+            res = meth(grid)
+            if len(obj.seen) != 1:
+                return False, f"function called {len(obj.seen)} times"
+            tname, seen = obj.seen[0]
+            seen = seen.reshape(-1, 2)
+            if gt == "oned":
+                line = np.stack((np.zeros(len(in_pts)), in_pts), axis=-1)
+                ok, d = close(seen, line)
+                if tname != "Grid2DIrregular" or not ok:
+                    return False, "a Grid1D was not handed to the function as the projected line (0, x_k): " + d
+            else:
+                want_t = "Grid2D" if gt == "uniform" else "Grid2DIrregular"
+                if tname != want_t:
+                    return False, f"function received a {tname}, expected {want_t}"
+                if not np.array_equal(seen, in_pts):
+                    return False, "function did not receive the input grid's coordinates unchanged"
+            outs = res if isinstance(res, list) else [res]
+            if case["list"] != isinstance(res, list) or len(outs) != len(case["funcs"]):
+                return False, "list result not wrapped element by element"
+            for c, fn in zip(outs, case["funcs"]):
+                exp = _eval_func_np(fn, seen, pair)
+                name = type(c).__name__
+                if gt == "uniform":
+                    want = {"array": "Array2D", "grid": "Grid2D", "vector": "VectorYX2D"}[case["kind"]]
+                elif gt == "irregular":
+                    want = {"array": "ArrayIrregular", "grid": "Grid2DIrregular", "vector": "VectorYX2DIrregular"}[case["kind"]]
+                else:
+                    want = {"array": "Array1D", "grid": "Grid2D"}[case["kind"]]
+                if name != want:
+                    return False, f"container is {name}, expected {want}"
+                if gt == "irregular":
+                    ok, d = close(_np(c), exp)
+                    if not ok:
+                        return False, "entries are not f(grid), one per coordinate in input order: " + d
+                    if case["kind"] == "vector" and not np.array_equal(_slim_np(c.grid).reshape(-1, 2), in_pts):
+                        return False, "irregular vector field's grid is not the input grid"
+                    continue
+                m = info["mask"]
+                cm = np.asarray(c.mask)
+                want_m = m if not (gt == "oned" and case["kind"] == "grid") else m.reshape(1, -1)
+                if cm.shape != want_m.shape or not np.array_equal(cm, want_m):
+                    return False, "container is not on the input grid's mask"
+                if not (gt == "oned" and case["kind"] == "grid"):
+                    if list(c.mask.pixel_scales) != list(grid.mask.pixel_scales) or \
+                            list(c.mask.origin) != list(grid.mask.origin):
+                        return False, "container's mask lost the pixel scales / origin of the input grid"
+                ok, d = close(np.asarray(c.slim.array, dtype="float64"), exp)
+                if not ok:
+                    return False, "slim entries are not f(grid) in slim order (entry k <-> coordinate k): " + d
+                if not (gt == "oned" and case["kind"] == "grid"):
+                    nat = np.zeros(m.shape + ((2,) if pair else ()))
+                    nat[~m] = exp
+                    ok, d = close(np.asarray(c.native.array, dtype="float64").reshape(nat.shape).reshape(len(m.ravel()), -1),
+                                  nat.reshape(len(m.ravel()), -1))
+                    if not ok:
+                        return False, "native entries are not the values at their pixels with zeros at masked pixels: " + d
+                if case["kind"] == "vector" and not np.array_equal(_slim_np(c.grid).reshape(-1, 2), in_pts):
+                    return False, "vector field's grid is not the input grid"
+            return True, ""
+        if kind == "project":
+            cy, cx = (float(Fraction(v)) for v in case["centre"])
+            a = math.radians(float(Fraction(case["angle"])) + 90.0)
+            pair = "cx" in case["func"]
+            res = obj.projected_from(grid)
+            if len(obj.seen) != 1:
+                return False, f"function called {len(obj.seen)} times"
+            tname, seen = obj.seen[0]
+            seen = seen.reshape(-1, 2)
+            if gt == "irregular":
+                exp = in_pts
+                want = "Grid2DIrregular" if pair else "ArrayIrregular"
+            elif gt == "oned":
+                exp = np.stack((-in_pts * math.sin(a), in_pts * math.cos(a)), axis=-1)
+                want = "Array1D"
+            else:
+                h, w = info["mask"].shape
+                sy, sx = (Fraction(v) for v in g["scales"])
+                oy, ox = (Fraction(v) for v in g["origin"])
+                fcy, fcx = Fraction(cy), Fraction(cx)
+                d = [ox + w * sx / 2 - fcx, oy + h * sy / 2 - fcy, fcx - (ox - w * sx / 2), fcy - (oy - h * sy / 2)]
+                dist = max(d)
+                ps = sy if dist in (d[1], d[3]) else sx
+                n = int(dist / ps) + 1
+                if case.get("line_n") and n != case["line_n"]:
+                    return False, f"harness: projected line has {n} points, wanted {case['line_n']}"
+                k = np.arange(n, dtype="float64")
+                exp = np.stack((cy - k * float(ps) * math.sin(a), cx + k * float(ps) * math.cos(a)), axis=-1)
+                want = "Array1D"
+            if type(res).__name__ != want:
+                return False, f"project_grid returned {type(res).__name__}, expected {want}"
+            ok, d = close(seen, exp)
+            if not ok:
+                return False, "function did not receive the radially projected line (centre + k*s rotated by angle): " + d
+            vals = _eval_func_np(case["func"], seen, pair)
+            ok, d = close(_np(res).reshape(vals.shape) if _np(res).size == vals.size else _np(res), vals, 1e-8)
+            return ok, "" if ok else "entry k of the result is not f at projected point k: " + d
+        cy, cx = (float(Fraction(v)) for v in case["centre"])
+        if kind == "relocate":
+            from autoconf import conf
+
+            rmin = float(Fraction(case["rmin"]))
+            tbl = conf.instance["grids"]["radial_minimum"]["radial_minimum"]
+            old = tbl["MockGridRadialMinimum"]
+            tbl["MockGridRadialMinimum"] = rmin
+            try:
+                obj.relocated_from(grid)
+            finally:
+                tbl["MockGridRadialMinimum"] = old
+            tname, s_ = obj.seen[0]
+            s_ = s_.reshape(-1, 2)
+            p_ = in_pts - np.array([cy, cx])
+            if len(s_) != len(p_):
+                return False, "number of coordinates changed"
+            if obj.n_transforms != 1:
+                return False, f"grid transformed {obj.n_transforms} times"
+            if tname != type(grid).__name__:
+                return False, f"relocated grid is a {tname}, input was {type(grid).__name__}"
+            r = np.sqrt(p_[:, 0] ** 2 + p_[:, 1] ** 2)
+            rs_ = np.sqrt(s_[:, 0] ** 2 + s_[:, 1] ** 2)
+            on_ray = (np.abs(p_[:, 0] * s_[:, 1] - p_[:, 1] * s_[:, 0]) <= 1e-9 * np.maximum(1e-300, r * rs_)) & \
+                     (p_[:, 0] * s_[:, 0] + p_[:, 1] * s_[:, 1] >= 0)
+            moved_ok = (np.abs(rs_ - rmin) <= 1e-9 * rmin) & ((r == 0) | on_ray)
+            same = (s_[:, 0] == p_[:, 0]) & (s_[:, 1] == p_[:, 1])
+            band = np.abs(r - rmin) <= 1e-9 * rmin
+            good = np.where(band, same | moved_ok, np.where(r < rmin, moved_ok, same))
+            if not good.all():
+                k = int(np.argwhere(~good)[0][0])
+                what = ("was moved to radius %r" % float(rs_[k])) if r[k] < rmin else "did not reach the function unchanged"
+                return False, f"coordinate {k} of {len(r)} at radius {float(r[k])!r} (minimum {rmin!r}) {what}"
+            return True, ""
+        if kind == "transform":
+            meth = {1: obj.level3, 2: obj.level2, 3: obj.level1}[case["depth"]]
+            if case["flag"]:
+                meth(grid, is_transformed=True)
+            else:
+                meth(grid)
+            tname, seen = obj.seen[0]
+            exp = in_pts if case["flag"] else in_pts - np.array([cy, cx])
+            if not np.array_equal(seen.reshape(-1, 2), exp):
+                return False, "innermost function did not receive the grid transformed exactly once"
+            if getattr(obj, "n_transforms", 0) != (0 if case["flag"] else 1):
+                return False, f"grid transformed {getattr(obj, 'n_transforms', 0)} times"
+            return (obj.flag is True), "is_transformed flag not set for the inner call"
+        raise ValueError(kind)
+
+    # ---- history stream: execution on real reused objects
+    @staticmethod
+    def _derive(obj, shadow, op, val, is_nd, prof=None, funcs=None):
+        """(derived object, derived shadow): the same IEEE operation on the library object and on the
+        harness's own float64 copy of its slim coordinates"""
+        import copy as _copy
+
+        v = float(Fraction(val)) if isinstance(val, str) else val
+        if op == "mul":
+            return obj * v, shadow * v
+        if op == "rmul":
+            return v * obj, v * shadow
+        if op == "add":
+            return obj + v, shadow + v
+        if op == "sub":
+            return obj - v, shadow - v
+        if op == "rsub":
+            return v - obj, v - shadow
+        if op == "div":
+            return obj / v, shadow / v
+        if op == "neg":
+            return -obj, -shadow
+        if op == "abs":
+            return abs(obj), np.abs(shadow)
+        if op == "pow2":
+            return obj ** 2, shadow ** 2
+        if op == "gg":
+            return obj + obj, shadow + shadow
+        if op == "copy":
+            return _copy.copy(obj), shadow.copy()
+        if op == "deepcopy":
+            return _copy.deepcopy(obj), shadow.copy()
+        if op == "wna":
+            return obj.with_new_array(np.array(obj.array) + v), shadow + v
+        if op == "astype":
+            return obj.astype("float64"), shadow.copy()
+        if op == "slim":
+            return obj.slim, shadow.copy()
+        if op == "native":
+            return obj.native, shadow.copy()
+        if op == "slice":
+            return obj[val[0]:val[1]], shadow[val[0]:val[1]].copy()
+        if op == "via_to_grid":
+            prof.funcs, prof.is_list, prof.pair = funcs, False, True
+            new = prof.grid_from(obj)
+            pts = [(float(a), float(b)) for a, b in shadow.reshape(-1, 2)]
+            return new, np.array(_eval_func(funcs[0], pts, float, True), dtype="float64").reshape(-1, 2)
+        raise ValueError(op)
+
+    @staticmethod
+    def _decoy(grid, prof_angles=()):
+        """read every other public derived quantity of a grid and of its mask (results discarded)"""
+        import functools
+
+        def props(o):
+            for cls in type(o).__mro__:
+                for k, v in list(vars(cls).items()):
+                    if k.startswith("_") or k in ("hdu_for_output",):
+                        continue
+                    if isinstance(v, (property, functools.cached_property)) or type(v).__name__ == "cached_property":
+                        try:
+                            yield getattr(o, k)
+                        except Exception:
+                            pass
+
+        if isinstance(grid, np.ndarray):
+            return
+        vals = list(props(grid))
+        mask = getattr(grid, "mask", None)
+        if mask is not None and not isinstance(mask, np.ndarray):
+            vals += list(props(mask))
+            for sub in ("geometry", "derive_mask", "derive_grid", "derive_indexes"):
+                try:
+                    list(props(getattr(mask, sub)))
+                except Exception:
+                    pass
+        # a coordinate of the grid's own world (a far-away centre would make the projected line huge)
+        try:
+            ps, og = tuple(mask.pixel_scales), tuple(mask.origin)
+            near = (og[0] + 0.25 * ps[0], og[1] - 0.5 * ps[1]) if len(ps) == 2 else None
+        except Exception:
+            near = None
+        if near is None:
+            try:
+                a0 = _slim_np(grid).reshape(-1, 2)
+                near = (float(a0[0, 0]), float(a0[-1, 1])) if len(a0) else (0.0, 0.0)
+            except Exception:
+                near = (0.0, 0.0)
+        for meth, kw in (("grid_2d_radial_projected_from", {}),
+                         ("grid_2d_radial_projected_from", {"angle": 17.0}),
+                         ("distances_to_coordinate_from", {"coordinate": near}),
+                         ("squared_distances_to_coordinate_from", {"coordinate": near})):
+            fn = getattr(grid, meth, None)
+            if callable(fn):
+                try:
+                    fn(**kw)
+                except Exception:
+                    pass
+        fn = getattr(grid, "grid_2d_radial_projected_from", None)
+        if callable(fn):
+            for a in prof_angles:
+                for kw in ({"angle": a}, {"centre": near, "angle": a}):
+                    try:
+                        fn(**kw)
+                    except Exception:
+                        pass
+
+    def _hist_sub(self, st, gstate, pstate, mag):
+        """the ordinary single-call case a call step amounts to, for FRESH objects in the current state"""
+        what = st["what"]
+        spec = gstate["spec"]
+        if what in ("array", "grid", "vector"):
+            sub = {"case": "dispatch", "kind": what, "grid": spec, "list": st["list"], "funcs": st["funcs"]}
+            if st.get("drop_last"):
+                sub["drop_last"] = True
+        elif what == "project":
+            sub = {"case": "project", "grid": spec, "func": st["func"],
+                   "attrs": "both" if pstate["angle"] is not None else "centre_only",
+                   "centre": pstate["centre"], "angle": pstate["angle"] if pstate["angle"] is not None else "0"}
+        elif what == "relocate":
+            sub = {"case": "relocate", "grid": spec, "rmin": st["rmin"], "centre": pstate["centre"]}
+        else:
+            sub = {"case": "transform", "depth": st["depth"], "flag": st["flag"],
+                   "explicit_false": st.get("explicit_false", False), "centre": pstate["centre"], "pts": None}
+        sub["tag"] = "hist_step"
+        if mag:
+            sub["mag"] = mag
+        return sub
+
+    def _run_history(self, aa, case):
+        mocks = _mocks(aa)
+        G, P = {}, {}
+        out, subs = [], []
+        mag = case.get("mag", 0) or 0
+        dead = False
+        for st in case["steps"]:
+            act = st["act"]
+            if dead:
+                out.append(None), subs.append(None)
+                continue
+            o, sub = None, None
+            if act == "grid":
+                spec = st["grid"]
+                grid = self._make_grid(aa, spec)
+                if st.get("readonly") and isinstance(grid, np.ndarray):
+                    grid.setflags(write=False)
+                G[st["to"]] = {"obj": grid, "shadow": _slim_np(grid).copy(), "in_mask": self._in_mask(grid),
+                               "spec": spec, "native": bool(spec.get("store_native"))}
+            elif act == "profile":
+                obj = mocks["radial"](centre=tuple(float(Fraction(v)) for v in st["centre"]),
+                                      angle=None if st["angle"] is None else float(Fraction(st["angle"])))
+                obj.angle = None if st["angle"] is None else float(Fraction(st["angle"]))
+                P[st["to"]] = {"obj": obj, "centre": list(st["centre"]), "angle": st["angle"]}
+            elif act == "setattr":
+                ps = P[st["p"]]
+                if "centre" in st:
+                    ps["centre"] = list(st["centre"])
+                    ps["obj"].centre = tuple(float(Fraction(v)) for v in st["centre"])
+                if "angle" in st:
+                    ps["angle"] = st["angle"]
+                    ps["obj"].angle = None if st["angle"] is None else float(Fraction(st["angle"]))
+            elif act == "derive":
+                src = G[st["from"]]
+                new, sh = self._derive(src["obj"], src["shadow"], st["op"], st.get("val"),
+                                       isinstance(src["obj"], np.ndarray),
+                                       P[st["p"]]["obj"] if "p" in st else None, st.get("funcs"))
+                nat = {"slim": False, "via_to_grid": False,
+                       "native": src["spec"]["type"] in ("uniform", "oned")}.get(st["op"], src["native"])
+                spec = src["spec"]
+                if st["op"] == "slice":
+                    spec = {**spec, "pts": spec["pts"][st["val"][0]:st["val"][1]]}
+                G[st["to"]] = {"obj": new, "shadow": np.array(sh, dtype="float64"), "in_mask": src["in_mask"],
+                               "spec": spec, "native": nat}
+            elif act == "mask_edit":
+                src = G[st["from"]]
+                spec = src["spec"]
+                mask = src["obj"].mask
+                if spec["type"] == "uniform":
+                    bits, w = list(spec["mask"]["bits"]), spec["mask"]["w"]
+                    for i, b in st["flips"]:
+                        mask[i // w, i % w] = bool(b)
+                        bits[i] = "1" if b else "0"
+                    nspec = {"type": "uniform", "mask": {**spec["mask"], "bits": "".join(bits)},
+                             "scales": spec["scales"], "origin": spec["origin"]}
+                    grid = aa.Grid2D.from_mask(mask=mask)
+                else:
+                    bits = list(spec["bits"])
+                    for i, b in st["flips"]:
+                        mask[i] = bool(b)
+                        bits[i] = "1" if b else "0"
+                    nspec = {"type": "oned", "bits": "".join(bits), "scale": spec["scale"], "origin": spec["origin"]}
+                    grid = aa.Grid1D.from_mask(mask=mask)
+                fresh = self._make_grid(aa, nspec)  # a freshly built equal mask and grid: the expectation
+                G[st["to"]] = {"obj": grid, "shadow": _slim_np(fresh).copy(), "in_mask": self._in_mask(fresh),
+                               "spec": nspec, "native": False}
+            elif act == "edit":
+                gs = G[st["g"]]
+                grid, spec, k = gs["obj"], gs["spec"], st["k"]
+                val = [float(Fraction(v)) for v in st["val"]] if isinstance(st["val"], list) else float(Fraction(st["val"]))
+                if st.get("how") == "where":
+                    key = np.zeros(np.shape(grid.array), dtype=bool)
+                    key[k] = True
+                    grid[key] = val
+                    gs["shadow"][k] = val
+                elif gs["native"] and spec["type"] == "uniform":
+                    w = spec["mask"]["w"]
+                    idx = [i for i, b in enumerate(spec["mask"]["bits"]) if b == "0"][k]
+                    grid[idx // w, idx % w] = val
+                    gs["shadow"][k] = val
+                elif gs["native"] and spec["type"] == "oned":
+                    idx = [i for i, b in enumerate(spec["bits"]) if b == "0"][k]
+                    grid[idx] = val
+                    gs["shadow"][k] = val
+                else:
+                    grid[k] = val
+                    gs["shadow"][k] = val
+            elif act == "decoy":
+                ps = P.get(st.get("p"))
+                angles = [0.0] + ([ps["obj"].angle + 90.0] if ps and ps["obj"].angle is not None else [])
+                self._decoy(G[st["g"]]["obj"], angles)
+            elif act in ("call", "fault"):
+                gs, ps = G[st["g"]], P[st["p"]]
+                sub = self._hist_sub(st, gs, ps, mag)
+                sh = gs["shadow"]
+                ipts = qlist(sh) if sh.ndim == 1 else [qlist(p_) for p_ in sh.reshape(-1, 2)]
+                if sub["case"] == "transform":
+                    sub["pts"] = ipts
+                if act == "fault":
+                    ps["obj"].fault = "raise"
+                    try:
+                        self._observe(aa, sub, ps["obj"], gs["obj"], in_pts=ipts, in_mask=gs["in_mask"])
+                        o = {"raised": None}
+                    except UserFault:
+                        o = {"raised": "UserFault"}
+                    finally:
+                        ps["obj"].fault = None
+                        ps["obj"].__dict__.pop("_evaluate", None)
+                    sub = None
+                else:
+                    try:
+                        o = self._observe(aa, sub, ps["obj"], gs["obj"], in_pts=ipts, in_mask=gs["in_mask"])
+                    except Skip:
+                        raise
+                    except Exception as e:  # an undocumented exception ends the history; it is an observation
+                        o = {"err": type(e).__name__, "msg": str(e)[:300]}
+                        dead = True
+            else:
+                raise ValueError(act)
+            out.append(o), subs.append(sub)
+        return {"steps": out, "_subs": subs}
+
+    def run_impl(self, case):
+        aa = load_autoarray()
+        kind = case["case"]
+        if kind == "history":
+            return self._run_history(aa, case)
+        if case.get("big"):
+            return self._run_big(aa, case)
+        obj = self._profile_for(aa, case)
+        if kind == "transform":
+            grid = self._make_grid(aa, {"type": "irregular", "pts": case["pts"]})
+        else:
+            grid = self._make_grid(aa, case["grid"])
+        return self._observe(aa, case, obj, grid)
+
     # ------------------------------------------------------------------ model
     def _grid_req(self, g, with_pts=True, obs=None):
         pts = self._grid_pts(g, obs)
@@ -721,8 +1952,27 @@ class C17(PropertyCheck):
             return {"type": "irregular", "pts": [[q(a), q(b)] for a, b in pts]}
         return {"type": "oned", "bits": g["bits"], "xs": qlist(pts)}
 
+    _hist_steps = {}
+
     def model_requests(self, case, impl_obs):
         kind = case["case"]
+        if case.get("big"):
+            return []  # large cases: judged by the (vectorised) oracle alone
+        if kind == "history":
+            reqs, idx = [], []
+            if isinstance(impl_obs, dict) and "steps" in impl_obs:
+                for k, (o, sub) in enumerate(zip(impl_obs["steps"], impl_obs["_subs"])):
+                    if sub is None or o is None:
+                        continue
+                    try:
+                        rs = self.model_requests(sub, o)
+                    except Skip:
+                        rs = []
+                    if len(rs) == 1:
+                        reqs.append(rs[0])
+                        idx.append(k)
+            self._hist_steps[id(case)] = (idx, len(case["steps"]))
+            return reqs
         if kind == "dispatch":
             funcs = case["funcs"]
             if case.get("drop_last"):
@@ -754,21 +2004,72 @@ class C17(PropertyCheck):
                      "depth": case["depth"], "flag": case["flag"]}]
         raise ValueError(kind)
 
+    def model_obs(self, case, responses):
+        if case["case"] == "history":
+            idx, n = self._hist_steps.get(id(case), ([], len(case["steps"])))
+            steps = [None] * n
+            for k, r in zip(idx, responses):
+                steps[k] = r["ok"] if "ok" in r else {"err": r.get("err")}
+            return {"steps": steps}
+        return super().model_obs(case, responses)
+
+    _REAL_KEYS = ("seen", "slim", "native", "values")
+
+    @classmethod
+    def _rescale(cls, o, f, inside=False):
+        """multiply the real-valued parts of an observation by the power of two `f` (exact)"""
+        if isinstance(o, dict):
+            return {k: cls._rescale(v, f, inside or k in cls._REAL_KEYS) for k, v in o.items()}
+        if isinstance(o, list):
+            return [cls._rescale(v, f, inside) for v in o]
+        if inside and isinstance(o, (str, int, float, Fraction)) and not isinstance(o, bool):
+            try:
+                return q(Fraction(o) * f)
+            except (ValueError, ZeroDivisionError):
+                return o
+        return o
+
+    def _compare_one(self, case, impl_obs, model_obs, cmp):
+        a, b = _strip(impl_obs), model_obs
+        k = case.get("mag", 0) or 0
+        if k != 0 and isinstance(a, dict) and isinstance(b, dict) and "err" not in a and "err" not in b:
+            # decades stream: compare relative to the world's magnitude 2^k, not to 1
+            f = Fraction(2) ** (-k)
+            a, b = self._rescale(a, f), self._rescale(b, f)
+        return cmp.diff(a, b)
+
     def compare(self, case, impl_obs, model_obs, cmp):
-        return cmp.diff(_strip(impl_obs), model_obs)
+        if case["case"] == "history":
+            for k, (o, m) in enumerate(zip(impl_obs["steps"], model_obs["steps"])):
+                if m is None or o is None:
+                    continue
+                d = self._compare_one(impl_obs["_subs"][k], o, m, cmp)
+                if d:
+                    return f"step {k}: {d}"
+            return None
+        return self._compare_one(case, impl_obs, model_obs, cmp)
 
     # ------------------------------------------------------------------ oracle
     @staticmethod
-    def _close(a, b, tol=1e-9):
+    def _close(a, b, tol=1e-9, floor=1.0):
+        """|a-b| <= tol*max(floor, |a|, |b|); `floor` is 1 for ordinary cases and the world's magnitude 2^k
+        for the cases of the decades stream (an absolute 1e-9 would hide everything in a tiny world and be
+        below the rounding noise of a huge one)"""
         a, b = float(Fraction(a)), float(Fraction(b))
-        return abs(a - b) <= tol * max(1.0, abs(a), abs(b))
+        return abs(a - b) <= tol * max(floor, abs(a), abs(b))
 
-    def _pts_close(self, got, exp, tol=1e-9):
+    def _pts_close(self, got, exp, tol=1e-9, floor=1.0):
         if len(got) != len(exp):
             return False
-        return all(self._close(g[0], e[0], tol) and self._close(g[1], e[1], tol) for g, e in zip(got, exp))
+        return all(self._close(g[0], e[0], tol, floor) and self._close(g[1], e[1], tol, floor)
+                   for g, e in zip(got, exp))
+
+    @staticmethod
+    def _floor(case):
+        return 2.0 ** (case.get("mag", 0) or 0)
 
     def _check_container(self, c, case, fn, pts, exact, in_mask=None):
+        S = self._floor(case)
         g = case["grid"]
         if in_mask is None:
             in_mask = ({"scales": g["scales"], "origin": g["origin"]} if g["type"] == "uniform"
@@ -785,8 +2086,10 @@ class C17(PropertyCheck):
                 return False
             if pair:
                 return all((Fraction(a[0]) == Fraction(b[0]) and Fraction(a[1]) == Fraction(b[1])) if exact
-                           else (self._close(a[0], b[0]) and self._close(a[1], b[1])) for a, b in zip(got, want))
-            return all(Fraction(a) == Fraction(b) if exact else self._close(a, b) for a, b in zip(got, want))
+                           else (self._close(a[0], b[0], 1e-9, S) and self._close(a[1], b[1], 1e-9, S))
+                           for a, b in zip(got, want))
+            return all(Fraction(a) == Fraction(b) if exact else self._close(a, b, 1e-9, S)
+                       for a, b in zip(got, want))
 
         zero = [Fraction(0), Fraction(0)] if pair else Fraction(0)
         if g["type"] == "uniform":
@@ -843,8 +2146,39 @@ class C17(PropertyCheck):
             return None
         return "to_vector_yx on a Grid1D is documented as unsupported"
 
+    @staticmethod
+    def _step_desc(case, k):
+        def one(st):
+            act = st["act"]
+            if act in ("call", "fault"):
+                return f"{act} {st['what']}({st['p']},{st['g']})"
+            if act == "derive":
+                return f"{st['to']}={st['op']}({st['from']})"
+            if act == "mask_edit":
+                return f"edit mask of {st['from']} in place; {st['to']}=from_mask(that mask)"
+            if act in ("grid", "profile"):
+                return f"new {st['to']}"
+            return f"{act} {st.get('g') or st.get('p')}"
+        return " ; ".join(one(st) for st in case["steps"][:k + 1])
+
     def oracle(self, case, obs):
         kind = case["case"]
+        if kind == "history":
+            if not isinstance(obs, dict) or "steps" not in obs:
+                return False, f"implementation raised {obs}"
+            for k, (o, sub) in enumerate(zip(obs["steps"], obs["_subs"])):
+                if sub is None or o is None:
+                    continue
+                try:
+                    ok, d = self.oracle(sub, o)
+                except Skip:
+                    continue
+                if not ok:
+                    return False, (f"history step {k} [{self._step_desc(case, k)}]: {d} — expected what the same "
+                                   f"call gives on freshly built objects in this state")
+            return True, ""
+        if case.get("big"):
+            return self._oracle_big(case, obs)
         if kind == "dispatch":
             g = case["grid"]
             if case.get("drop_last"):
@@ -859,7 +2193,8 @@ class C17(PropertyCheck):
             exact = False
             if g["type"] == "oned":
                 line = [(Fraction(0), x) for x in pts]
-                if obs["_seen_type"] != "Grid2DIrregular" or not self._pts_close(obs["seen"], line):
+                if obs["_seen_type"] != "Grid2DIrregular" or not self._pts_close(obs["seen"], line, 1e-9,
+                                                                                 self._floor(case)):
                     return False, "a Grid1D was not handed to the function as the projected line (0, x_k)"
                 pts = line
             else:
@@ -913,12 +2248,14 @@ class C17(PropertyCheck):
                 want_cls = "Array1D"
             if obs["_cls"] != want_cls:
                 return False, f"project_grid returned {obs['_cls']}, expected {want_cls}"
-            if not self._pts_close(obs["seen"], exp, 1e-9):
+            S = self._floor(case)
+            if not self._pts_close(obs["seen"], exp, 1e-9, S):
                 return False, "function did not receive the radially projected line (centre + k*s rotated by angle)"
             vals = _eval_func(case["func"], exp, float, pair)
             got = obs["values"]
             ok = len(got) == len(vals) and all(
-                (self._close(a[0], b[0], 1e-8) and self._close(a[1], b[1], 1e-8)) if pair else self._close(a, b, 1e-8)
+                (self._close(a[0], b[0], 1e-8, S) and self._close(a[1], b[1], 1e-8, S)) if pair
+                else self._close(a, b, 1e-8, S)
                 for a, b in zip(got, vals))
             return ok, "" if ok else "entry k of the result is not f at projected point k"
         if kind == "relocate":
@@ -963,6 +2300,10 @@ class C17(PropertyCheck):
     # ------------------------------------------------------------------ bookkeeping
     def nontrivial(self, case, obs):
         kind = case["case"]
+        if kind == "history":
+            return sum(1 for st in case["steps"] if st["act"] == "call") >= 2
+        if case.get("big"):
+            return True
         if kind == "dispatch":
             g = case["grid"]
             if g["type"] == "uniform":
@@ -983,6 +2324,18 @@ class C17(PropertyCheck):
 
     def shrink(self, case):
         kind = case["case"]
+        if case.get("big"):
+            return
+        if kind == "history":
+            steps = case["steps"]
+            for i in range(len(steps) - 1, -1, -1):
+                cand = steps[:i] + steps[i + 1:]
+                if self._hist_ok(cand):
+                    yield {**case, "steps": cand}
+            for i, st in enumerate(steps):
+                if st["act"] == "call" and st.get("list") and len(st.get("funcs", [])) > 1:
+                    yield {**case, "steps": steps[:i] + [{**st, "funcs": st["funcs"][:1]}] + steps[i + 1:]}
+            return
         if kind == "relocate" and case["grid"]["type"] in ("irregular", "ndarray"):
             pts = case["grid"]["pts"]
             for i in range(len(pts)):
@@ -1007,6 +2360,15 @@ class C17(PropertyCheck):
                         yield {**case, "grid": {**g, "mask": {**g["mask"], "bits": bits[:i] + "1" + bits[i + 1:]}}}
 
     def theorems_for(self, case):
+        if case["case"] == "history":
+            kinds = {"array": "dispatch", "grid": "dispatch", "vector": "dispatch"}
+            out = []
+            for st in case["steps"]:
+                if st["act"] == "call":
+                    for t in self.theorems_for({"case": kinds.get(st["what"], st["what"])}):
+                        if t not in out:
+                            out.append(t)
+            return out
         return {
             "dispatch": ["C17.dispatch_uniform", "C17.dispatch_irregular", "C17.dispatch_oned",
                          "C17.list_wrapped_elementwise", "C17.pointwise_entry_k"],
